@@ -95,6 +95,25 @@ Theorem C10_http_not_stored_when_stale : forall f cachable h dflt now1 now2 l,
 Proof. exact http_hdr_not_stored_when_stale_fixed. Qed.
 Print Assumptions C10_http_not_stored_when_stale.
 
+(** time passes between the arrival of a response ([now1]: headers there, expiry
+    computed) and the Set ([now2]: after the body has been read and dumped): the
+    ttl handed to the cache lies within the freshness left AT THE TIME OF THE SET
+    -- what was left on arrival minus the time passed -- so a response that goes
+    stale while its body is still arriving is not stored *)
+Theorem C10_http_within_rfc_freshness_at_set : forall f cachable h dflt now1 now2 ttl,
+  fx2 f = true -> fx4 f = true -> now1 <= now2 -> 0 <= hv_age h ->
+  http_store_hdr f cachable h dflt now1 now2 = Some ttl ->
+  exists l, rfc_remaining h dflt now1 = Some l /\ 0 < ttl /\ ttl <= l - (now2 - now1).
+Proof. exact http_hdr_within_rfc_at_set. Qed.
+Print Assumptions C10_http_within_rfc_freshness_at_set.
+
+Theorem C10_http_not_stored_when_stale_at_set : forall f cachable h dflt now1 now2 l,
+  fx2 f = true -> fx4 f = true -> now1 <= now2 -> 0 <= hv_age h ->
+  rfc_remaining h dflt now1 = Some l -> l <= now2 - now1 ->
+  http_store_hdr f cachable h dflt now1 now2 = None.
+Proof. exact http_hdr_not_stored_when_stale_at_set. Qed.
+Print Assumptions C10_http_not_stored_when_stale_at_set.
+
 Theorem C10_http_not_stored_without_lifetime : forall f cachable h dflt now1 now2,
   rfc_remaining h dflt now2 = None ->
   http_store_hdr f cachable h dflt now1 now2 = None.
